@@ -813,6 +813,7 @@ func genC20(g *Gen) {
 	}
 
 	// ---- (4) framing
+	c20GenPoolSweep(g) // directed: encoded sizes around every pool capacity (c20_pool.go); first, on a fresh pool
 	nFrames := g.Vol(700, 30000)
 	for i := 0; i < nFrames; i++ {
 		big := i%25 == 0
